@@ -27,6 +27,57 @@ pub enum Driver {
 
 thread_local! {
     static IN_EXPRESSIONS: std::cell::Cell<bool> = std::cell::Cell::new(false);
+    /// what `map_block` does to a block: insert yields (0), or wrap every statement in a transparent try
+    /// statement (1: try/finally, 2: try/catch that throws the exception again, 3: both, nested)
+    static BLOCK_MODE: std::cell::Cell<u8> = std::cell::Cell::new(0);
+}
+
+/// Transparent try statements (C08): `try { S } finally { }` and `try { S } catch e { throw e; }` around a
+/// statement S that declares nothing do what S does - whether S falls through, returns, breaks, continues,
+/// throws or calls something that does.  Every statement of every block, function, method, lambda, loop body
+/// and try / catch / finally block of a program is wrapped (declarations stay as they are: their scope is the
+/// enclosing block), so every exit of the program passes through handlers and finally blocks that must not
+/// change it.  The reference evaluator runs the same wrapped program.
+#[derive(Clone, Copy, PartialEq, Eq, Debug)]
+pub enum TryWrap {
+    Finally,
+    Rethrow,
+    Both,
+}
+
+fn wrap_try(s: Stmt, mode: u8) -> Stmt {
+    if matches!(s.kind, StmtKind::Var(..) | StmtKind::Fn(_) | StmtKind::Class(_) | StmtKind::Import(..)) {
+        return s;
+    }
+    let rethrow = || Some(("zz_e".to_string(), vec![st(StmtKind::Throw(var("zz_e")))]));
+    match mode {
+        1 => st(StmtKind::Try(vec![s], None, Some(vec![]))),
+        2 => st(StmtKind::Try(vec![s], rethrow(), None)),
+        _ => st(StmtKind::Try(vec![st(StmtKind::Try(vec![s], None, Some(vec![])))], rethrow(), Some(vec![]))),
+    }
+}
+
+pub fn try_wrapped(body: &[Stmt], w: TryWrap) -> Vec<Stmt> {
+    BLOCK_MODE.with(|m| m.set(match w { TryWrap::Finally => 1, TryWrap::Rethrow => 2, TryWrap::Both => 3 }));
+    let out = map_block(body, false);
+    BLOCK_MODE.with(|m| m.set(0));
+    out
+}
+
+pub fn try_wrapped_cases(family: &'static str, corpus: &[crate::mcheck::Case], wraps: &[TryWrap]) -> Vec<crate::mcheck::Case> {
+    let mut out = Vec::new();
+    for c in corpus {
+        if c.impl_src.is_some() || !c.prelude.is_empty() || c.piecewise {
+            continue;
+        }
+        for w in wraps {
+            let mut n = crate::mcheck::Case::new(family, try_wrapped(&c.prog, *w));
+            n.modules = c.modules.clone();
+            n.opts = crate::diff::CmpOpts { trace: false, kind: c.opts.kind };
+            out.push(n);
+        }
+    }
+    out
 }
 
 fn mid(e: Expr) -> Expr {
@@ -118,6 +169,10 @@ fn map_stmt(s: &Stmt, v: bool) -> Stmt {
 /// a yield before the first statement and after every statement of the block (a yield after `return`,
 /// `break`, `continue` or `throw` would be dead code and is left out)
 fn map_block(b: &[Stmt], v: bool) -> Vec<Stmt> {
+    let mode = BLOCK_MODE.with(|m| m.get());
+    if mode != 0 {
+        return b.iter().map(|s| wrap_try(map_stmt(s, v), mode)).collect();
+    }
     let mut out = vec![yield_stmt(v)];
     for s in b {
         out.push(map_stmt(s, v));
@@ -232,6 +287,47 @@ pub fn as_module_cases(family: &'static str, corpus: &[crate::mcheck::Case]) -> 
         k.impl_src = Some("import \"zz_prog\";\n".to_string());
         k.impl_modules.insert("zz_prog".to_string(), print_program(&c.prog, false));
         out.push(k);
+    }
+    out
+}
+
+/// Displacement law (C06 / C08 / C04): the statements of a program behave the same as the body of a function
+/// whatever lies *below* them - `locals` unused variables declared first in the same function (every slot
+/// number, capture index and stack position of the program moves up by that much: one-byte operands near 127,
+/// 128 and 255) and `depth` activations of the function already on the call stack (the program's own calls
+/// run just under the limit of active calls, so its deepest ones fail with the stack overflow error - in try
+/// bodies, catch and finally blocks, callbacks of the library - and are handled or not like any other error).
+/// The reference evaluator runs the same transformed program: it has no slots, and counts active calls.
+pub fn displaced(body: &[Stmt], locals: usize, depth: usize) -> Vec<Stmt> {
+    let mut b: Vec<Stmt> = Vec::new();
+    if depth > 0 {
+        b.push(st(StmtKind::If(
+            bin(BinOp::Gt, var("zz_d"), num(0.0)),
+            vec![st(StmtKind::Return(Some(call(var("zz_at"), vec![bin(BinOp::Sub, var("zz_d"), num(1.0))]))))],
+            None,
+        )));
+    }
+    for i in 0..locals {
+        b.push(st(StmtKind::Var(format!("zz_{}", i), None)));
+    }
+    b.extend(body.iter().cloned());
+    vec![fn_stmt(func("zz_at", &["zz_d"], b)), expr_stmt(call(var("zz_at"), vec![num(depth as f64)]))]
+}
+
+pub fn displaced_cases(family: &'static str, corpus: &[crate::mcheck::Case], locals: &[usize], depths: &[usize]) -> Vec<crate::mcheck::Case> {
+    let mut out = Vec::new();
+    for c in corpus {
+        if c.impl_src.is_some() || !c.prelude.is_empty() || c.piecewise {
+            continue;
+        }
+        for &k in locals {
+            for &d in depths {
+                let mut n = crate::mcheck::Case::new(family, displaced(&c.prog, k, d));
+                n.modules = c.modules.clone();
+                n.opts = crate::diff::CmpOpts { trace: false, kind: c.opts.kind };
+                out.push(n);
+            }
+        }
     }
     out
 }
